@@ -46,8 +46,9 @@ Deep3Base == BaseOps \o <<[op |-> "gadd", inst |-> "r1", m |-> Hosts(<<"a.com">>
              \o <<[op |-> "gnew", inst |-> "r4", m |-> PV(<<"v1", "v11">>), cfg |-> RC("r4", FALSE)]>> \o Table("r4")
 Deep3Ops == {[op |-> "gremove", inst |-> n] : n \in {"r1", "r2", "r3", "r4"}} \cup {[op |-> "gadd", inst |-> "r1", m |-> Nil], [op |-> "guse", mws |-> <<"h">>]}
 \* C16: a recovery override given to one Group.New router must not reach the next one
-Deep16Base == BaseOps \o <<[op |-> "gnew", inst |-> "r3", m |-> Hosts(<<"a.com">>), cfg |-> RCT("r3", TRUE)]>> \o Table("r3")
-              \o <<[op |-> "gnew", inst |-> "r4", m |-> Nil, cfg |-> RC("r4", FALSE)]>> \o Table("r4")
+RC0(n, rec) == [name |-> n, trace |-> FALSE, lock |-> FALSE, icpt |-> <<>>, domain |-> "", recovery |-> rec]   \* no other option than recovery
+Deep16Base == BaseOps \o <<[op |-> "gnew", inst |-> "r3", m |-> Hosts(<<"a.com">>), cfg |-> RC0("r3", TRUE)]>> \o Table("r3")
+              \o <<[op |-> "gnew", inst |-> "r4", m |-> Nil, cfg |-> RC0("r4", FALSE)]>> \o Table("r4")
 Init == \E rec \in Recs : \/ ("full" \in Alphas /\ G = ApplyAll(NewGroup(rec), BaseOps, 1) /\ hist = BaseOps /\ nbase = Len(BaseOps) /\ alpha = "full")
                            \/ ("deep" \in Alphas /\ G = ApplyAll(NewGroup(rec), DeepBase, 1) /\ hist = DeepBase /\ nbase = Len(DeepBase) /\ alpha = "deep")
                            \/ ("deep" \in Alphas /\ G = ApplyAll(NewGroup(rec), Deep3Base, 1) /\ hist = Deep3Base /\ nbase = Len(Deep3Base) /\ alpha = "deep3")
